@@ -75,6 +75,52 @@ def confirm(wt, sid, prop):
     return 0
 
 
+SCRATCH = "/tmp/evalscratch"
+
+
+def scratch_env():
+    """a scratch worktree of /repo plus a copy of the harness crate whose path dependencies point at it,
+    so that changes can be evaluated without touching /repo (which background runs may be using)"""
+    repo = os.path.join(SCRATCH, "repo")
+    hd = os.path.join(SCRATCH, "harness")
+    if not os.path.exists(repo):
+        os.makedirs(SCRATCH, exist_ok=True)
+        sh("git -C /repo worktree add --detach %s HEAD" % repo)
+    sh("git checkout -q --detach $(git -C /repo rev-parse HEAD) && git checkout -- .", cwd=repo)
+    os.makedirs(hd, exist_ok=True)
+    sh("rsync -a --delete --exclude target %s/ %s/" % (os.path.join(VERIF, "harness"), hd))
+    ct = open(os.path.join(hd, "Cargo.toml")).read().replace('path = "/repo"', 'path = "%s"' % repo).replace('path = "/repo/common"', 'path = "%s/common"' % repo)
+    open(os.path.join(hd, "Cargo.toml"), "w").write(ct)
+    return {"VERIF_REPO": repo, "VERIF_HARNESS_DIR": hd, "VERIF_OUT": os.path.join(SCRATCH, "out")}, repo
+
+
+def evaluate_scratch(sid, checks):
+    d = os.path.join(SEEDED, sid)
+    meta = json.load(open(os.path.join(d, "meta.json")))
+    if not checks:
+        checks = [meta["property"]]
+    env, repo = scratch_env()
+    rc, out = sh("git apply %s" % os.path.join(d, "patch.diff"), cwd=repo)
+    if rc != 0:
+        print("patch does not apply:", out)
+        return 2
+    try:
+        for c in checks:
+            t0 = time.time()
+            rc, out = sh("./check %s --tier quick" % c, cwd=VERIF, env=env, timeout=7200)
+            viol = [l for l in out.splitlines() if l.startswith("VIOLATION")]
+            whys = [l.strip() for l in out.splitlines() if l.startswith("  ") and ":" in l][:3]
+            meta["checks"][c] = {"exit": rc, "violation_lines": len(viol), "first": [w[:300] for w in whys], "wall_s": round(time.time() - t0, 1),
+                                 "verdict": "caught" if rc == 1 else ("tool-error" if rc == 2 else "missed"), "evaluated_on": "scratch worktree"}
+            print(sid, c, meta["checks"][c]["verdict"], "exit", rc, whys[:1])
+            if rc == 2:
+                print(out[-1500:])
+    finally:
+        sh("git checkout -- .", cwd=repo)
+    json.dump(meta, open(os.path.join(d, "meta.json"), "w"), indent=1)
+    return 0
+
+
 def evaluate(sid, checks):
     d = os.path.join(SEEDED, sid)
     meta = json.load(open(os.path.join(d, "meta.json")))
@@ -110,3 +156,5 @@ if __name__ == "__main__":
         sys.exit(confirm(sys.argv[2], sys.argv[3], sys.argv[4]))
     if sys.argv[1] == "eval":
         sys.exit(evaluate(sys.argv[2], sys.argv[3:]))
+    if sys.argv[1] == "eval-scratch":
+        sys.exit(evaluate_scratch(sys.argv[2], sys.argv[3:]))
